@@ -216,6 +216,15 @@ class C20(Property):
                                     for sc in LS_SCENARIOS:
                                         out.append([{"mix": mix, "kern": kern, "anch": anch, "ls": sc,
                                                      "user": user, "flavour": fl}])
+                                if fl == "ttf" and user == "none" and ls in ((0, 0, 0, 0, 0), (1, 1, 1, 0, 0),
+                                                                             (1, 1, 1, 1, 1), (0, 1, 1, 0, 0)):
+                                    # the same source as a two-master variable font with variable features
+                                    out.append([{"mix": mix, "kern": kern, "anch": anch, "ls": list(ls),
+                                                 "user": user, "flavour": "vttf"}])
+                                    if ls == (0, 0, 0, 0, 0):
+                                        for sc in LS_SCENARIOS:
+                                            out.append([{"mix": mix, "kern": kern, "anch": anch, "ls": sc,
+                                                         "user": user, "flavour": "vttf"}])
                                 if user == "none" and sum(ls) in (0, 5) or ls == (1, 1, 0, 0, 0):
                                     for prev in ("latn+cyrl", "arab", "deva"):
                                         if prev != mix:
@@ -238,7 +247,23 @@ class C20(Property):
             prev = make_spec(c["prev"], c["kern"], c["anch"], [1, 1, 0, 1, 1], "none")
             fn(B.build_font(prev), useProductionNames=False, featureWriters=writers)
             kw["featureWriters"] = writers
-        tt = O.reload(fn(font, useProductionNames=False, **kw))
+        if c["flavour"] == "vttf":
+            import copy
+            spec2 = copy.deepcopy(spec)
+            for g in spec2["glyphs"].values():
+                g["width"] = g.get("width", 500) + (10 if g.get("width", 500) else 0)
+                g["anchors"] = [(a[0], a[1] + 7, a[2] + 3) for a in g.get("anchors", ())]
+            spec2["kerning"] = [(k[0], k[1], k[2] - 5) for k in spec2.get("kerning", ())]
+            spec2["info"] = dict(spec2.get("info") or {}, styleName="Bold")
+            ds = B.build_designspace([{"name": "Weight", "tag": "wght", "min": 400, "default": 400, "max": 700}],
+                                     [{"spec": spec, "location": {"Weight": 400}},
+                                      {"spec": spec2, "location": {"Weight": 700}}])
+            skipped = spec.get("lib", {}).get("public.skipExportGlyphs")
+            if skipped:
+                ds.lib["public.skipExportGlyphs"] = list(skipped)
+            tt = O.reload(ufo2ft.compileVariableTTF(ds, useProductionNames=False))
+        else:
+            tt = O.reload(fn(font, useProductionNames=False, **kw))
         lay = O.Layout(tt)
         viols = []
         ctrs = {"langsys_checked": 0, "langsys_with_kern": 0, "required_features": 0,
